@@ -414,6 +414,10 @@ def oracle(run, deep):
                     return
     option_engines(run, fresh)
     process_wide_state(run)
+    # the module-level route (yaql.eval: one engine and one table of parsed texts per process): overlapping calls after
+    # a long history, thread switch at every line boundary of yaql/__init__.py
+    import evalrace
+    evalrace.run_races(run, "C01")
     if not run.quick or deep:
         free_running(run, eng, fresh)
 
